@@ -1,5 +1,6 @@
 import M3d.Gen.Kernels
 import M3d.Model.Param
+import M3d.Model.ParamExt
 import Mathlib.Tactic.Ring
 import Mathlib.Algebra.Order.Field.Basic
 /-!
@@ -82,5 +83,103 @@ theorem rectContains_eq (r : Rect K) (c : V2 K) :
 theorem rectClamp_eq (r : Rect K) (c : V2 K) :
     model2d.Coord_Max (model2d.Coord_Min (g2 c) (g2 r.hi)) (g2 r.lo) =
       g2 ⟨clamp1 r.lo.x r.hi.x c.x, clamp1 r.lo.y r.hi.y c.y⟩ := rfl
+
+/-! ### The building blocks of `ExtendBoundaryUVs` (`M3d/Model/ParamExt.lean`)
+
+`ExtendBoundaryUVs` itself works on a `*Mesh` and a `*CoordMap` and is outside the translated subset; every numeric
+function it calls is regenerated: `Coord.Normalize`, `Coord.ProjectOut`, `Segment.Dist` / `Length` (2-D),
+`NewSegment`, `Segment.Dist` / `Length` (3-D).  `math.Sqrt` is the uninterpreted `HasSqrt.sqrt` on both sides. -/
+
+section Ext
+variable [GenPrelude.HasSqrt K]
+
+theorem sub2_eq (a b : V2 K) : model2d.Coord_Sub (g2 a) (g2 b) = g2 (a.sub b) := by
+  cases a; cases b
+  simp [model2d.Coord_Sub, model2d.Coord_Add, model2d.Coord_Scale, V2.sub]
+  try (refine ⟨?_, ?_⟩ <;> ring)
+
+theorem sub3_eq (a b : V3 K) : model3d.Coord3D_Sub (g3 a) (g3 b) = g3 (a.sub b) := by
+  cases a; cases b
+  simp [model3d.Coord3D_Sub, model3d.Coord3D_Add, model3d.Coord3D_Scale, V3.sub]
+  try (refine ⟨?_, ?_, ?_⟩ <;> ring)
+
+theorem scale2_eq (c : V2 K) (s : K) : model2d.Coord_Scale (g2 c) s = g2 (c.scale s) := rfl
+theorem add2_eq (a b : V2 K) : model2d.Coord_Add (g2 a) (g2 b) = g2 (a.add b) := rfl
+theorem scale3_eq (c : V3 K) (s : K) : model3d.Coord3D_Scale (g3 c) s = g3 (c.scale s) := rfl
+theorem add3_eq (a b : V3 K) : model3d.Coord3D_Add (g3 a) (g3 b) = g3 (a.add b) := rfl
+theorem dot3_eq (a b : V3 K) : model3d.Coord3D_Dot (g3 a) (g3 b) = dot3 a b := rfl
+theorem norm3_eq (c : V3 K) : model3d.Coord3D_Norm (g3 c) = norm3 c := rfl
+
+/-- `Coord.Norm` is `norm2` -/
+theorem norm2_eq (c : V2 K) : model2d.Coord_Norm (g2 c) = norm2 c := rfl
+
+/-- `Coord.Dist` is `distE2` -/
+theorem dist2d_eq (a b : V2 K) : model2d.Coord_Dist (g2 a) (g2 b) = distE2 a b := rfl
+
+/-- `Coord.Normalize` is `normalize2` -/
+theorem normalize2_eq (c : V2 K) : model2d.Coord_Normalize (g2 c) = g2 (normalize2 c) := rfl
+
+/-- `Coord.ProjectOut` is `projectOut2` -/
+theorem projectOut2_eq (c c1 : V2 K) : model2d.Coord_ProjectOut (g2 c) (g2 c1) = g2 (projectOut2 c c1) := by
+  unfold model2d.Coord_ProjectOut projectOut2
+  simp only [normalize2_eq, scale2_eq, dot_eq, sub2_eq]
+
+/-- `Segment.Closest` (2-D) is `segClosest2` -/
+theorem segClosest2_eq (e0 e1 c : V2 K) :
+    model2d.Segment_Closest ⟨g2 e0, g2 e1⟩ (g2 c) = g2 (segClosest2 e0 e1 c) := by
+  unfold model2d.Segment_Closest segClosest2
+  simp only [sub2_eq, norm2_eq, scale2_eq, dot_eq, add2_eq, gt_iff_lt, decide_eq_true_eq]
+  split_ifs <;> rfl
+
+/-- `Segment.Dist` (2-D) is `segDist2` -/
+theorem segDist2_eq (e0 e1 c : V2 K) : model2d.Segment_Dist ⟨g2 e0, g2 e1⟩ (g2 c) = segDist2 e0 e1 c := by
+  unfold model2d.Segment_Dist segDist2
+  rw [segClosest2_eq]; rfl
+
+/-- `Segment.Length` (2-D) is `segLen2` -/
+theorem segLen2_eq (e0 e1 : V2 K) : model2d.Segment_Length ⟨g2 e0, g2 e1⟩ = segLen2 e0 e1 := by
+  unfold model2d.Segment_Length segLen2
+  simp only [sub2_eq]; rfl
+
+/-- `NewSegment` is `newSegment3` -/
+theorem newSegment3_eq (p q : V3 K) :
+    model3d.NewSegment (g3 p) (g3 q) = ⟨g3 (newSegment3 p q).1, g3 (newSegment3 p q).2⟩ := by
+  unfold model3d.NewSegment newSegment3
+  split_ifs <;> rfl
+
+/-- `Segment.Closest` (3-D) is `segClosest3` -/
+theorem segClosest3_eq (e0 e1 c : V3 K) :
+    model3d.Segment_Closest ⟨g3 e0, g3 e1⟩ (g3 c) = g3 (segClosest3 e0 e1 c) := by
+  unfold model3d.Segment_Closest segClosest3
+  simp only [sub3_eq, norm3_eq, scale3_eq, dot3_eq, add3_eq, gt_iff_lt, decide_eq_true_eq]
+  split_ifs <;> rfl
+
+/-- `Segment.Dist` (3-D) is `segDist3` -/
+theorem segDist3_eq (e0 e1 c : V3 K) : model3d.Segment_Dist ⟨g3 e0, g3 e1⟩ (g3 c) = segDist3 e0 e1 c := by
+  unfold model3d.Segment_Dist segDist3
+  rw [segClosest3_eq]; rfl
+
+/-- `Segment.Length` (3-D) is `segLen3` -/
+theorem segLen3_eq (e0 e1 : V3 K) : model3d.Segment_Length ⟨g3 e0, g3 e1⟩ = segLen3 e0 e1 := rfl
+
+/-- The 3-D aspect ratio `NewSegment(p0, p2).Dist(p1) / NewSegment(p0, p2).Length()` is `ratio3`. -/
+theorem ratio3_eq (p0 p1 p2 : V3 K) :
+    model3d.Segment_Dist (model3d.NewSegment (g3 p0) (g3 p2)) (g3 p1) /
+      model3d.Segment_Length (model3d.NewSegment (g3 p0) (g3 p2)) = ratio3 p0 p1 p2 := by
+  rw [newSegment3_eq, segDist3_eq, segLen3_eq]; rfl
+
+/-- The 2-D aspect ratio `Segment{uv0, uv2}.Dist(uv1) / Segment{uv0, uv2}.Length()` is `ratio2`. -/
+theorem ratio2_eq (uv0 uv1 uv2 : V2 K) :
+    model2d.Segment_Dist ⟨g2 uv0, g2 uv2⟩ (g2 uv1) / model2d.Segment_Length ⟨g2 uv0, g2 uv2⟩ = ratio2 uv0 uv1 uv2 := by
+  rw [segDist2_eq, segLen2_eq]; rfl
+
+/-- The stored point `uv1.Add(uv1.ProjectOut(uv2.Sub(uv0)).Normalize().Scale(extraDist))` is `pushOut`. -/
+theorem pushOut_eq (uv0 uv1 uv2 : V2 K) (extra : K) :
+    model2d.Coord_Add (g2 uv1) (model2d.Coord_Scale
+      (model2d.Coord_Normalize (model2d.Coord_ProjectOut (g2 uv1) (model2d.Coord_Sub (g2 uv2) (g2 uv0)))) extra) =
+      g2 (pushOut uv0 uv1 uv2 extra) := by
+  rw [sub2_eq, projectOut2_eq, normalize2_eq]; rfl
+
+end Ext
 
 end M3d.KernelsTie.Param
